@@ -124,7 +124,14 @@ def gen_set(rnd, n):
 def dominance_pair(rnd, basic=False):
     """Two rules that both match everything in the pool that contains the word; exactly one level decides."""
     w = rnd.choice(['UBER', 'NETFLIX', 'COSTCO', 'STAR'])
-    level = rnd.choice(['priority', 'patterns', 'kinds', 'length'] + ([] if basic else ['kinds-vs-long-text', 'patterns-vs-many-kinds', 'length-non-ascii', 'single-kind', 'single-kind', 'length-mixed-quotes']))
+    level = rnd.choice(['priority', 'patterns', 'kinds', 'length'] + ([] if basic else ['kinds-vs-long-text', 'patterns-vs-many-kinds', 'length-non-ascii', 'single-kind', 'single-kind', 'length-mixed-quotes', 'hash-in-pattern']))
+    if level == 'hash-in-pattern':
+        # a "#" inside a quoted pattern is pattern text (STORE #12, APT #4): what follows it on the line still counts
+        hi = R.Rule('HI', rnd.choice(['contains("%s #12") and amount > -1e12', 'contains("%s #12") and contains("%s")' % ('%s', w[:2]), 'contains("%s #12 STORE")']) % w, 'Hi', 'HiSub')
+        lo = R.Rule('LO', 'contains("%s #12")' % w, 'Lo', 'LoSub')
+        rules = [hi, lo]
+        rnd.shuffle(rules)
+        return R.RuleFile(variables=list(PREAMBLE), rules=rules), level, w
     if level == 'length-mixed-quotes':
         # pattern text counts whichever quotes it is written in, also when one condition uses both kinds
         a, b = w[:2], w[2:] + ' STORE 42'
@@ -290,6 +297,8 @@ def judge_dominance(rec, rnd, tmp):
     if level.startswith('length-non-ascii'):
         txn['description'] = '\u0130' * int(level[-1]) + ' ' + txn['description']
         level = level[:-2]
+    if level == 'hash-in-pattern':
+        txn['description'] = '%s #12 STORE 42 %s' % (w, w)
     if level.startswith('single-kind'):
         txn['source'] = txn.get('source') or 'Amex'
         txn['amount'] = abs(txn['amount']) or 5.0          # every listed constraint is true of the probe transaction
